@@ -199,7 +199,13 @@ theorem succ_node (h : Cover P C C0 W okS) (n : Nat) (L : Level P sc C C0 W okS 
       rw [visitNode_cast P sc n e s s1 hl x ty h2]; simp only [hA, countE]; grind
     | inst x tys =>
       simp only [wfE, Bool.and_eq_true, countE, kE, shallowE, Nat.add_eq_zero_iff, Nat.max_le] at hw hc hk hs
-      rw [visitNode_inst P sc n e s s1 hl x tys h2]; simp only [hA, countE]; grind
+      rw [visitNode_inst P sc n e s s1 hl x tys h2]; simp only [hA, countE]
+      cases tys with
+      | nil => simp only [mapS, countTys]; grind
+      | cons t ts =>
+        have h0 : C.tyNode = 0 := by
+          have := hs.2; simp only [List.length_cons, Nat.mul_eq_zero] at this; omega
+        grind
 
 theorem succ_expr (h : Cover P C C0 W okS) (n : Nat) (L : Level P sc C C0 W okS n) :
     ∀ e s, wfE e = true → countE C0 e = 0 → kE W e + 2 ≤ n + 1 →
